@@ -1,6 +1,6 @@
 #!/usr/bin/env python3
 """C07 - each layer is served as a correct overlayfs lower directory of the OCI layer (Node.tla, Overlay.tla)."""
-import os, sys, json
+import os, sys, json, threading, concurrent.futures
 sys.path.insert(0, os.path.dirname(os.path.dirname(os.path.abspath(__file__))))
 from vlib import *
 
@@ -24,7 +24,7 @@ def tla_set(names):
 
 
 def failing_line(mr):
-    m = re.findall(r"/\\ l = (\d+)", mr.out)
+    m = re.findall(r"^(?:/\\ )?l = (\d+)", mr.out, re.M)
     return int(m[-1]) - 1 if m else 0
 
 
@@ -100,7 +100,54 @@ def check(run):
                'stargz.index.json', 'zz', '.stargz-snapshotter'] + (['.wh..prefetch.landmark'] if thorough else [])
     base = {"RawU": rawu, "LookupU": tla_set(lookupu)}
 
-    # ---------------------------------------------------------------- M: design level, exhaustive
+    # R: both drivers read their input from TLC output; one go test per metadata store runs both drivers.
+    # The go builds run while TLC does the exhaustive design-level runs (M); the four validations run side by side.
+    serialise(run)
+    inp, nout = prepare_nodes(run, thorough, base)
+    linp, oout, layers, modes = prepare_stacks(run, thorough)
+    errs = []
+
+    def drivers():
+        try:
+            for store, moddir, pkg, overlay in STORES:
+                run.go_driver(moddir, pkg, overlay, "^TestVerif(Node|Overlay)$", race=False,
+                              env={"VERIF_IN": inp, "VERIF_OUT": nout, "VERIF_IN_OVERLAY": linp, "VERIF_OUT_OVERLAY": oout})
+        except BaseException as e:
+            errs.append(e)
+    th = threading.Thread(target=drivers)
+    th.start()
+    try:
+        if not os.environ.get("C07_DEV_SKIP_M"):
+            design_level(run, thorough, base)
+    finally:
+        th.join()
+    if errs:
+        raise errs[0]
+    jobs = []
+    for store, moddir, pkg, overlay in STORES:
+        jobs.append(lambda store=store: validate_node(run, "%s_%s.ndjson" % (nout, store), store, dict(base), "replay"))
+        jobs.append(lambda store=store: validate_stacks(run, thorough, store, "%s_%s.ndjson" % (oout, store), layers, modes))
+    with concurrent.futures.ThreadPoolExecutor(max_workers=4) as ex:
+        for f in [ex.submit(j) for j in jobs]:
+            f.result()
+
+
+def serialise(run):
+    """vlib's scratch-directory counter and replay file naming are not thread-safe: put a lock around them"""
+    lock = threading.Lock()
+    prep, viol = run._prep, run.violation
+
+    def _prep(*a, **kw):
+        with lock:
+            return prep(*a, **kw)
+
+    def violation(*a, **kw):
+        with lock:
+            return viol(*a, **kw)
+    run._prep, run.violation = _prep, violation
+
+
+def design_level(run, thorough, base):
     run.tlc_mc("Node", "Node_mc.cfg", dict(base, MaxChildren="4" if thorough else "3", StatOnlyEmpty="FALSE" if thorough else "TRUE"),
                workers=8 if thorough else 4, timeout=3000, name="Node_mc.cfg children<=%d" % (4 if thorough else 3))
     small = {"MaxChildren": "2"}
@@ -111,6 +158,7 @@ def check(run):
                      ({"PrefixedWhiteoutLookup": "FALSE"}, ["ListedIffLookup", "ListedIffLookupA"]),
                      ({"OpaqueByMode": "FALSE"}, ["OpaqueXattr", "OpaqueXattrA"]),
                      ({"WhiteoutAttr": "FALSE"}, ["ListedIffLookup", "ListedIffLookupA", "InodesUniqueStable", "InodesUniqueStableA"]),
+                     ({"MemWhiteoutAttr": "FALSE"}, ["ListedIffLookup", "ListedIffLookupA"]),
                      ({"WriterDropsToc": "FALSE"}, ["ListingIsTranslation"])):
         run.tlc_negctl("Node", "Node_mc.cfg", dict(small, **ovr), exp, drop=INTERNAL)
 
@@ -123,6 +171,9 @@ def check(run):
         run.tlc_negctl("OverlayCheck", "OverlayCheck_mc.cfg", dict({"MaxLayers": "2", "TopAChoices": "{FALSE}"}, **ovr), ["MergeEqualsApply"],
                        drop=("SingleLayerSane",))
 
+
+
+def prepare_nodes(run, thorough, base):
     # ---------------------------------------------------------------- R: Node walks on real nodes
     gen = dict(base, MaxChildren="3" if thorough else "2", ExtraContents="{}" if thorough else EXTRA3)
     inits, edges = run.tlc_edges("NodeGen", "Node_gen.cfg", gen, timeout=1500)
@@ -140,12 +191,10 @@ def check(run):
         j["walks"].append(steps)
     inp = os.path.join(run.scratch, "node_in.json")
     write_json(inp, {"jobs": list(jobs.values())})
-    nout = os.path.join(run.scratch, "node")
-    tov = dict(base)
-    for store, moddir, pkg, overlay in STORES:
-        run.go_driver(moddir, pkg, overlay, "^TestVerifNode$", env={"VERIF_IN": inp, "VERIF_OUT": nout}, race=True)
-        validate_node(run, "%s_%s.ndjson" % (nout, store), store, tov, "replay")
+    return inp, os.path.join(run.scratch, "node")
 
+
+def prepare_stacks(run, thorough):
     # ---------------------------------------------------------------- R: stacks of real served trees
     lov = {"MaxLayers": "1", "PfChoices": "{TRUE, FALSE}"}
     if thorough:
@@ -154,17 +203,19 @@ def check(run):
     layers = [json.loads(x) for x in r.lines("VLAYER")]
     if not layers:
         raise Inconclusive("OverlayGen printed no layers: %s" % (r.error or r.out[-2000:]))
-    layers = [{"top": fix_empty(x["top"]), "sub": fix_empty(x["sub"])} for x in layers]
+    layers = [{"top": fix_empty(x["top"]), "sub": {d: fix_empty(c) for d, c in fix_empty(x["sub"]).items()}} for x in layers]
     layers.sort(key=canon)
     modes = ["trusted", "user", "all"]
     linp = os.path.join(run.scratch, "overlay_in.json")
     write_json(linp, {"layers": layers, "modes": modes})
     oout = os.path.join(run.scratch, "overlay")
+    log("[overlay] %d model layers x %d modes" % (len(layers), len(modes)))
+    return linp, oout, layers, modes
+
+
+def validate_stacks(run, thorough, store, spath, layers, modes):
     nl = len(layers)
-    log("[overlay] %d model layers x %d modes" % (nl, len(modes)))
-    for store, moddir, pkg, overlay in STORES:
-        run.go_driver(moddir, pkg, overlay, "^TestVerifOverlay$", env={"VERIF_IN": linp, "VERIF_OUT": oout}, race=True)
-        spath = "%s_%s.ndjson" % (oout, store)
+    if True:
         served = read_ndjson(spath)
         line_of = {(e["layer"], e["mode"]): i + 1 for i, e in enumerate(served)}
         # stacks: every single layer in every mode, pairs and triples sampled by seed (all pairs when thorough)
@@ -190,7 +241,7 @@ def check(run):
         with open(stp, "w") as fh:
             for s in stacks:
                 fh.write(json.dumps(s) + "\n")
-        mr = run.tlc("OverlayMonitor", "OverlayMonitor.cfg", None, workers=4 if not thorough else 8, timeout=3000,
+        mr = run.tlc("OverlayMonitor", "OverlayMonitor.cfg", None, workers=2 if not thorough else 6, timeout=3000,
                      extra={"trace.ndjson": spath, "stacks.ndjson": stp})
         log("[overlay] %-6s %d served trees, %d stacks: %s (%.1fs)" % (store, len(served), len(stacks), mr.violated or ("ok" if mr.completed else "BROKEN"), mr.wall))
         run.cov["evaluations"] += len(stacks)
